@@ -217,7 +217,7 @@ def main(tier, seed):
         if len(rep.samples) < 5: rep.samples.append(dict(shape=rec['shape'], conf=rec['conf'], hand_rewritten=rec['rewritten'], obligations=[f"{o['name']}:{o['status']}" for o in rec['obligations'][:8]]))
     files = ['beartype/_check/convert/_reduce/redmain.py', 'beartype/_check/convert/_reduce/_redrecurse.py', 'beartype/_conf/_confoverrides.py', 'beartype/_conf/conftest.py',
              'beartype/_check/code/codemain.py', 'beartype/_check/checkmake.py']
-    rep.functions = [f'{p}@{report.src_hash(p)} (exercised through the real generator; generated text under contract)' for p in files]
+    rep.functions = ['beartype/_conf/_confoverrides.py:sanify_conf_kwargs_is_pep484_tower (mode F, PEP 584 dict-union law)'] + [f'{p}@{report.src_hash(p)} (exercised through the real generator; generated text under contract)' for p in files]
     from pyvc import model as M
     rep.trusted = ['pyvc', 'z3 5.1 / cvc5'] + M.ASSUMED_SEMANTICS
     rep.assumptions = ['the hand rewrite is a single simultaneous textual substitution of the overridden tokens in the shape source',
